@@ -39,6 +39,14 @@ struct Consumption {
     duplicate: bool,
 }
 
+/// The transport's verdict on the datagram consumed by tap event `consume_idx`
+fn verdict_of(run: &MrpRun, consume_idx: usize) -> Option<RxVerdict> {
+    run.events.iter().find_map(|e| match &e.ev {
+        Event::Rx { verdict, .. } if e.tap_pos == consume_idx + 1 => Some(*verdict),
+        _ => None,
+    })
+}
+
 fn consumptions(run: &MrpRun) -> Vec<Consumption> {
     let by_id: BTreeMap<u64, usize> = run.dgrams.iter().enumerate().map(|(i, d)| (d.id, i)).collect();
     let mut max: BTreeMap<(usize, usize), u32> = BTreeMap::new();
@@ -322,16 +330,8 @@ pub fn check_c09(run: &MrpRun, out: &mut Outcome) {
             continue;
         }
         out.count("duplicates_received", 1);
-        // What did the transport say?
-        let verdict = run.events.iter().find_map(|e| match &e.ev {
-            Event::Rx {
-                wire_sess_id,
-                ctr,
-                verdict,
-                ..
-            } if e.node == c.node && e.time == c.time && *wire_sess_id == plain.sess_id && *ctr == plain.ctr => Some(*verdict),
-            _ => None,
-        });
+        // What did the transport say about this very copy?
+        let verdict = verdict_of(run, c.tap_idx);
         if matches!(verdict, Some(RxVerdict::NoSession)) {
             continue;
         }
@@ -555,10 +555,7 @@ pub fn check_c10(run: &MrpRun, out: &mut Outcome) {
 
     // (b), (c) exchange creation and answers to unknown exchanges
     let cons = consumptions(run);
-    let mut cons_at: BTreeMap<(usize, u64), Vec<usize>> = BTreeMap::new();
-    for (i, c) in cons.iter().enumerate() {
-        cons_at.entry((c.node, c.time)).or_default().push(i);
-    }
+    let cons_by_tap: BTreeMap<usize, usize> = cons.iter().enumerate().map(|(i, c)| (c.tap_idx, i)).collect();
     let mut sent_at: BTreeMap<(usize, u64), Vec<usize>> = BTreeMap::new();
     // (node, planted, exch id) of every exchange a node has used as initiator -> first time
     let mut initiated: BTreeMap<(usize, Option<usize>, u16), u64> = BTreeMap::new();
@@ -581,12 +578,10 @@ pub fn check_c10(run: &MrpRun, out: &mut Outcome) {
             continue;
         };
         // The datagram this verdict is about
-        let d = cons_at.get(&(e.node, e.time)).and_then(|v| {
-            v.iter().find_map(|ci| {
-                let c = &cons[*ci];
-                let d = &run.dgrams[c.dgram];
-                matches!(&d.plain, Some(p) if p.sess_id == *wire_sess_id && p.ctr == *ctr).then_some((c, d))
-            })
+        let _ = (wire_sess_id, ctr);
+        let d = cons_by_tap.get(&(e.tap_pos.wrapping_sub(1))).map(|ci| {
+            let c = &cons[*ci];
+            (c, &run.dgrams[c.dgram])
         });
         let Some((c, d)) = d else { continue };
         if c.modified {
